@@ -138,19 +138,30 @@ def edecOfInt (x : Int) : List Char :=
     let digits := addDoubleWhile 64 x.natAbs [0] [1]
     (if x < 0 then ['-'] else []) ++ decChars digits
 
+/-- `unpad()` of edecimal on the most-significant-first digit list: drop leading zeros, keep the last digit
+    (`for (i = n-1; i > 0; --i) if (digit[i] == 0) pop_back(); else return;`). -/
+def edecUnpadMsd : List Nat → List Nat
+  | d :: e :: ds => if d = 0 then edecUnpadMsd (e :: ds) else d :: e :: ds
+  | l => l
+
 /-- `edecimal::parse` on an object whose sign flag is `neg0`, followed by `operator<<`:
     `none` when the regex `[+-]*[0123456789]+` does not match (the object is left unchanged).
-    The flag is set by a leading `-` and NEVER cleared (`clear()` is `std::vector::clear`). -/
-def edecParsePrint (neg0 : Bool) (s : List Char) : Option (List Char) :=
+    As repaired ("fix: edecimal parse must reset the sign of the receiving object", "fix: edecimal parse must not
+    keep leading zeros or a negative zero"): `clear(); setpos();` — the old flag `neg0` is dropped —, a leading `-`
+    sets the flag, the digits are pushed, reversed, `unpad()`ed, and `if (iszero()) setpos()`. -/
+def edecParsePrint (_neg0 : Bool) (s : List Char) : Option (List Char) :=
   let body := dropSigns s
   if body.isEmpty || !allB isDigit body then none
   else
+    let cleared := false          -- clear(); setpos(): the flag `_neg0` the object held before is reset
     let (neg, rest) := match s with
       | '-' :: r => (true, r)
-      | '+' :: r => (neg0, r)
-      | r => (neg0, r)
+      | '+' :: r => (cleared, r)
+      | r => (cleared, r)
     -- every remaining character is pushed as a digit (`default: v = 0`, so a further sign character becomes 0)
-    let digits := rest.map (fun c => if isDigit c then digitChar (digitVal c) else '0')
-    some ((if neg then ['-'] else []) ++ digits)
+    let digits := rest.map (fun c => if isDigit c then digitVal c else 0)
+    let digits := edecUnpadMsd digits                    -- reverse(); unpad();
+    let neg := if digits.all (· == 0) then false else neg -- if (iszero()) setpos();
+    some ((if neg then ['-'] else []) ++ digits.map digitChar)
 
 end UVerif.Text
